@@ -263,6 +263,33 @@ pub fn run_case(case: &Value, out: &mut Obs) {
             undo_type_changes(&mut a);
         }
     }
+    // A publish request that is answered with the status change of a subscription whose lifetime ran out: the tick made by
+    // the request removes the subscription (connection 1).
+    {
+        let c = &mut conns[0];
+        let h = c.header();
+        let r = c.call(CreateSubscriptionRequest { request_header: h, requested_publishing_interval: 100.0, requested_lifetime_count: 3, requested_max_keep_alive_count: 1, max_notifications_per_publish: 0, publishing_enabled: true, priority: 0 }.into());
+        let mut created = false;
+        for (_, m) in &r {
+            if let SupportedMessage::CreateSubscriptionResponse(_) = m {
+                created = true;
+            }
+        }
+        if created {
+            // no publish request is queued while the publishing intervals pass (untraced)
+            for k in 1..=8 {
+                let t = c.t.clone();
+                let mut t = t.write();
+                let now = chrono::Utc::now() + chrono::Duration::seconds(10 + k);
+                let _ = t.verif_tick(&now);
+            }
+            let h = c.header();
+            let req: SupportedMessage = PublishRequest { request_header: h, subscription_acknowledgements: None }.into();
+            task(out, &cid, &mut i, "Publish~answers_with_the_status_change_of_an_expired_subscription", 1, || {
+                let _ = c.call(req);
+            });
+        }
+    }
     // The session services on their error paths (connection 1): a CreateSession on a secured channel whose client certificate
     // is rejected, an ActivateSession that is refused.
     {
